@@ -304,7 +304,7 @@ def roundRef (sc : Scripts) : Nat → World → World × List Ev
                              cg := if w.living.contains hb.ob then some hb.ob else none, ec := true,
                              nb := fun o => if o = hb.ob then w.nb o + 1 else w.nb o }
           match runOps w1 hb.ob (sc hb.ob (w.nb hb.ob)) with
-          | (w2, evs, .err) => ({ errorHandler w2 with cg := none }, .beat hb.ob :: cx :: evs ++ [.tickAbort])
+          | (w2, evs, .err) => ({ errorEntry w2 with cg := none }, .beat hb.ob :: cx :: evs ++ [.tickAbort])
           | (w2, evs, _) =>
             let w3 := { w2 with cg := none, idx := w2.idx + 1 }
             if w3.idx = w3.todo || w3.flag then (finish w3, .beat hb.ob :: cx :: evs ++ [.beatEnd hb.ob, .tickEnd])
